@@ -298,6 +298,8 @@ var topRules = []topRule{
 		good: "import g from lib;\nfn f() -> int { 1 }\nfn main() { println(f(), g); }\n", bad: "import f from lib;\nfn f() -> int { 1 }\nfn main() { println(f.len()); }\n"},
 	{name: "global-named-like-imported-function", lib: "pub fn f() -> str { \"abc\" }\npub fn g() -> str { \"x\" }\nfn main() {}\n",
 		good: "import g from lib;\nlet f = 1;\nfn main() { println(f, g()); }\n", bad: "import f from lib;\nlet f = 1;\nfn main() { println(f); }\n"},
+	{name: "list-literal-function-elements", good: "fn f(x: int) -> int { x }\nfn g(x: int) -> int { x + 1 }\nfn main() { let l = [f, g, fn(x: int) -> int { x + 2 }]; println(l[1](1), l[2](1)); }\n",
+		bad: "fn f(x: int) -> int { x }\nfn g(x: str) -> int { 1 }\nfn main() { let l = [f, g]; println(l[0](1)); }\n"},
 	{name: "duplicate-parameter", good: "fn f(a: int, b: int) -> int { a + b }\nfn main() { println(f(1, 2)); }\n", bad: "fn f(a: int, a: int) -> int { a }\nfn main() { println(f(1, 2)); }\n"},
 	{name: "duplicate-lambda-parameter", good: "fn main() { let l = fn(a: int, b: int) -> int { a + b }; println(l(1, 2)); }\n", bad: "fn main() { let l = fn(a: int, a: int) -> int { a }; println(l(1, 2)); }\n"},
 	{name: "duplicate-object-type-field", good: "type T = { a: int, b: int };\nfn main() { let v: T = new { a: 1, b: 2 }; println(v.a); }\n", bad: "type T = { a: int, a: int };\nfn main() { println(1); }\n"},
